@@ -771,7 +771,9 @@ fn update_contiguous_length(
     let end = bitfield_update.start + bitfield_update.length;
     let mut c = header.hints.contiguous_length;
     if bitfield_update.drop {
-        if c <= end && c > bitfield_update.start {
+        // Dropping anything below the contiguous length shortens it to the start of the
+        // dropped range, wherever the range ends (same rule as in `clear`).
+        if c > bitfield_update.start {
             c = bitfield_update.start;
         }
     } else if c <= end && c >= bitfield_update.start {
